@@ -62,8 +62,8 @@ T = {
   note="The inversion/signature/purity algorithms are not modelled, only their dependencies; 64-bit hash collisions assumed absent.",
   technique="Coq memo-transparency proofs + key/dependency correspondences + history differential with per-cache attribution"),
  "C13": dict(
-  text="Coq small-step interleaving model of spawn/pool/wait/send/recv with theorems over ALL schedules: determinism for side-effect-free bodies, wait order, FIFO channels, progress for spawn-only and flat programs, a machine-checked deadlock witness for nested pools on the code as written and progress for the repaired admission rule; tied by running generated task trees in isolated child processes with pool sizes {1,2,4,all} against the model's verdict and sequential evaluation.",
-  note="OS scheduler fairness and the threadpool/crossbeam contracts are trusted; values abstracted to numbers.",
+  text="Coq small-step interleaving model of spawn/pool/wait/send/recv with theorems over ALL schedules: determinism for side-effect-free bodies, wait order, FIFO channels, progress for every nesting depth, task count and pool size on the admission rule of the code (spawn-only and flat programs for either rule), with the nested-pool deadlock of the code before its repair kept as machine-checked records and a regression corpus that runs first; tied by running generated task trees in isolated child processes with pool sizes {1,2,4,all} against the model's verdict and sequential evaluation.",
+  note="OS scheduler fairness and the threadpool/crossbeam contracts are trusted; values abstracted to numbers; tasks that receive messages from their parent are outside the side-effect-free premise of the progress theorems.",
   technique="Coq proofs over all schedules of an interleaving model + child-process correspondence on task trees"),
  "C14": dict(
   text="Coq theorems over the interpreter model: a call equals its body when no fill is visible (frame theorem discharges the height check), the call boundary hides and restores the fill (the documented exception, stated positively), function-table extension does not change compiled code (rebinding), and a verified structural equality used to validate that the real compiler produces equal IR for a program and its naming-transformed variant (inline a call, abstract under a fresh name, hand-expand an index macro, move into a module); values and messages compared on the implementation.",
